@@ -69,13 +69,38 @@ def _has_yield(fn: ast.FunctionDef) -> bool:
     return any(isinstance(n, (ast.Yield, ast.YieldFrom)) for n in walk_no_nested(fn))
 
 
-def _returns_in_loops(stmts) -> bool:
-    for st in stmts:
+def _tail_return_only(stmts) -> bool:
+    """every `return` in the block is its last statement (possibly inside trailing if/else arms)"""
+    for i, st in enumerate(stmts):
+        last = i == len(stmts) - 1
+        if isinstance(st, ast.Return):
+            if not last:
+                return False
+        elif isinstance(st, ast.If):
+            has = any(isinstance(n, ast.Return) for n in walk_no_nested(st))
+            if has and not (last and _tail_return_only(st.body) and _tail_return_only(st.orelse)):
+                return False
+        elif any(isinstance(n, ast.Return) for n in walk_no_nested(st)):
+            return False
+    return True
+
+
+def _is_tail_try(st, last: bool) -> bool:
+    """`try: …; return a` / `except E: …; return b` as the last statement of a function: the returns can become
+    assignments in place (no finally, no else, nothing after the try)."""
+    return (isinstance(st, ast.Try) and last and not st.finalbody and not st.orelse and _tail_return_only(st.body)
+            and all(_tail_return_only(h.body) for h in st.handlers))
+
+
+def _returns_in_loops(stmts, top: bool = True) -> bool:
+    for i, st in enumerate(stmts):
+        if top and _is_tail_try(st, i == len(stmts) - 1):
+            continue
         if isinstance(st, (ast.For, ast.While, ast.With, ast.Try)):
             if any(isinstance(n, ast.Return) for n in walk_no_nested(st)):
                 return True
         elif isinstance(st, ast.If):
-            if _returns_in_loops(st.body) or _returns_in_loops(st.orelse):
+            if _returns_in_loops(st.body, False) or _returns_in_loops(st.orelse, False):
                 return True
     return False
 
@@ -113,6 +138,16 @@ def to_single_exit(stmts: list[ast.stmt], retvar: str | None) -> tuple[list[ast.
                 val = st.value if st.value is not None else ast.Constant(value=None)
                 out.append(ast.Assign(targets=[ast.Name(id=retvar, ctx=ast.Store())], value=val, lineno=st.lineno, col_offset=0))
             return out, True
+        if _is_tail_try(st, not rest) and any(isinstance(n, ast.Return) for n in walk_no_nested(st)):
+            nb, _r = to_single_exit(st.body, retvar)
+            st2 = ast.Try(body=nb or [ast.Pass()], handlers=[], orelse=[], finalbody=[], lineno=st.lineno, col_offset=0)
+            always = _r
+            for h in st.handlers:
+                hb, hr = to_single_exit(h.body, retvar)
+                always = always and hr
+                st2.handlers.append(ast.ExceptHandler(type=h.type, name=h.name, body=hb or [ast.Pass()], lineno=h.lineno, col_offset=0))
+            out.append(st2)
+            return out, always
         if isinstance(st, ast.If) and any(isinstance(n, ast.Return) for n in walk_no_nested(st)):
             b, b_ret = to_single_exit(st.body, retvar)
             o, o_ret = to_single_exit(st.orelse, retvar)
@@ -218,6 +253,7 @@ class Flattener:
         fn.body = structure_guards(fn.body, in_loop=False, function_level=self.function_guards)
         fn.body = propagate_aliases(fn.body)
         fn.body = canonical_accumulations(fn.body)
+        fn = _CanonExpr().visit(fn)
         ast.fix_missing_locations(fn)
         return fn
 
@@ -269,6 +305,9 @@ class Flattener:
             st.orelse = self._block(st.orelse, stack, depth)
             return pre + [st]
         if isinstance(st, ast.For):
+            unrolled = _unroll_literal_loop(st)
+            if unrolled is not None:
+                return self._block(unrolled, stack, depth)
             spliced = self._splice_generator(st, stack, depth)
             if spliced is not None:
                 return spliced
@@ -440,6 +479,51 @@ class Flattener:
         return self._block(out, stack + [helper.qualname], depth + 1)
 
 
+def _unroll_literal_loop(st: ast.For):
+    """``for k, p in (("move", Move), ("criteria", Criteria)): body`` — a loop over a short literal sequence of pure
+    items is the body repeated with the items substituted (no break/continue/else, targets not rebound in the body)."""
+    it = st.iter
+    if st.orelse or not isinstance(it, (ast.Tuple, ast.List)) or not (1 <= len(it.elts) <= 6):
+        return None
+
+    def pure(e):
+        return isinstance(e, (ast.Constant, ast.Name)) or (isinstance(e, ast.Attribute) and dotted(e) is not None)
+
+    if isinstance(st.target, ast.Name):
+        names = [st.target.id]
+        rows = [[e] for e in it.elts]
+    elif isinstance(st.target, ast.Tuple) and all(isinstance(t, ast.Name) for t in st.target.elts):
+        names = [t.id for t in st.target.elts]
+        rows = []
+        for e in it.elts:
+            if not isinstance(e, (ast.Tuple, ast.List)) or len(e.elts) != len(names):
+                return None
+            rows.append(list(e.elts))
+    else:
+        return None
+    if not all(pure(x) for r in rows for x in r):
+        return None
+    for n in ast.walk(ast.Module(body=st.body, type_ignores=[])):
+        if isinstance(n, (ast.Break, ast.Continue, ast.Return, ast.Yield, ast.YieldFrom)):
+            return None
+        if isinstance(n, ast.Name) and isinstance(n.ctx, (ast.Store, ast.Del)) and n.id in names:
+            return None
+    out = []
+    for r in rows:
+        mp = dict(zip(names, r))
+
+        class Sub(ast.NodeTransformer):
+            def visit_Name(self, node):
+                if isinstance(node.ctx, ast.Load) and node.id in mp:
+                    return copy.deepcopy(mp[node.id])
+                return node
+
+        out.extend(Sub().visit(copy.deepcopy(b)) for b in st.body)
+    for s_ in out:
+        ast.fix_missing_locations(s_)
+    return out
+
+
 # --------------------------------------------------------------------------- guard structuring
 def structure_guards(stmts: list[ast.stmt], in_loop: bool, function_level: bool = True) -> list[ast.stmt]:
     """``if c: A; continue`` + rest  →  ``if c: A else: rest`` (inside loops);
@@ -571,6 +655,24 @@ def canonical_accumulations(stmts: list[ast.stmt]) -> list[ast.stmt]:
             if isinstance(tgt, ast.Name):
                 is_empty_list = isinstance(st.value, ast.List) and not st.value.elts
                 is_zero = isinstance(st.value, ast.Constant) and st.value.value in (0, 0.0) and not isinstance(st.value.value, bool)
+                is_empty_dict = (isinstance(st.value, ast.Dict) and not st.value.keys) or (isinstance(st.value, ast.Call) and norm(st.value.func) == "dict" and not st.value.args and not st.value.keywords)
+                if is_empty_dict and i + 1 < len(stmts) and isinstance(stmts[i + 1], ast.For) and not stmts[i + 1].orelse:
+                    # d = {} ; for T in IT: [if C:] d[K] = E   →   d = {K: E for T in IT [if C]}
+                    lp = stmts[i + 1]
+                    body = _subst_leading_assigns(lp.body)
+                    conds = []
+                    while len(body) == 1 and isinstance(body[0], ast.If) and not body[0].orelse:
+                        conds.append(body[0].test)
+                        body = _subst_leading_assigns(body[0].body)
+                    if len(body) == 1 and isinstance(body[0], ast.Assign) and len(body[0].targets) == 1 and isinstance(body[0].targets[0], ast.Subscript) \
+                            and isinstance(body[0].targets[0].value, ast.Name) and body[0].targets[0].value.id == tgt.id \
+                            and tgt.id not in {n.id for n in ast.walk(body[0].value) if isinstance(n, ast.Name)}:
+                        comp = ast.DictComp(key=body[0].targets[0].slice, value=body[0].value, generators=[ast.comprehension(target=lp.target, iter=lp.iter, ifs=conds, is_async=0)])
+                        new = ast.Assign(targets=[ast.Name(id=tgt.id, ctx=ast.Store())], value=comp, lineno=st.lineno, col_offset=0)
+                        ast.fix_missing_locations(new)
+                        out.append(new)
+                        i += 2
+                        continue
                 if (is_empty_list or is_zero) and i + 1 < len(stmts) and isinstance(stmts[i + 1], ast.For) and not stmts[i + 1].orelse:
                     lp = stmts[i + 1]
                     comp = _loop_to_comp(lp, tgt.id, is_empty_list)
@@ -630,6 +732,20 @@ def _loop_to_comp(lp: ast.For, name: str, as_list: bool):
         comp = ast.ListComp(elt=s.value, generators=[ast.comprehension(target=lp.target, iter=lp.iter, ifs=conds, is_async=0)])
         return ast.Call(func=ast.Name(id="sum", ctx=ast.Load()), args=[comp], keywords=[])
     return None
+
+
+class _CanonExpr(ast.NodeTransformer):
+    """expression-level canonical forms: `{k: v for k, v in it}` is `dict(it)`"""
+
+    def visit_DictComp(self, node):
+        self.generic_visit(node)
+        if len(node.generators) == 1:
+            g = node.generators[0]
+            if not g.ifs and not g.is_async and isinstance(g.target, ast.Tuple) and len(g.target.elts) == 2 and all(isinstance(t, ast.Name) for t in g.target.elts) \
+                    and isinstance(node.key, ast.Name) and isinstance(node.value, ast.Name) and node.key.id == g.target.elts[0].id and node.value.id == g.target.elts[1].id \
+                    and node.key.id != node.value.id:
+                return ast.copy_location(ast.Call(func=ast.Name(id="dict", ctx=ast.Load()), args=[g.iter], keywords=[]), node)
+        return node
 
 
 # --------------------------------------------------------------------------- public helper
